@@ -82,3 +82,35 @@ let () =
     explore ~v0 (int_of_string argv.(2)) keys (int_of_string argv.(3)) in
   register "slist-bfs" (bfs false);
   register "slist_v0-bfs" (bfs true)
+
+(* pointer-level model (SListPtrModel): same scripts, same trace format *)
+let run_case_ptr (c : case) =
+  let open SListPtrModel in
+  Printf.printf "case %s\n" c.name;
+  let keys = ref [||] and nlists = ref 1 in
+  let st = ref None in
+  let dead = ref false in
+  L.iter (fun w ->
+    if not !dead then
+    match w with
+    | "keys" :: ks -> keys := Array.of_list (L.map z_of_string ks)
+    | ["nlists"; n] -> nlists := int_of_string n
+    | ["cmpmode"; _] -> ()
+    | _ ->
+      let key n = let i = int_of_nat n in if i < Array.length !keys then !keys.(i) else BinNums.Z0 in
+      let s = match !st with Some s -> s | None -> p_init (nat_of_int !nlists) in
+      (match parse_op w with
+       | None -> Printf.printf "badop %s\n" (S.concat " " w); dead := true
+       | Some o ->
+         (match p_step key s o with
+          | Prelude.Done (s', out) ->
+            st := Some s';
+            let d = S.concat " " (L.init !nlists (fun i ->
+                Printf.sprintf "| L%d: %s" i (zs (p_dump s' (nat_of_int i))))) in
+            Printf.printf "ok %s %s\n" (zs out) d
+          | Prelude.Abort -> print_endline "abort"; dead := true
+          | Prelude.Fault -> print_endline "fault"; dead := true
+          | Prelude.Precond -> print_endline "precond"; dead := true))) c.lines;
+  print_endline "end"
+
+let () = register "slistp" (fun argv -> L.iter run_case_ptr (read_cases (input_of argv 2)))
